@@ -16,7 +16,9 @@ RULE = ('Model-based stateful testing: generated histories over 2-4 '
         'delete / nested update), client DISCONNECT, server.disconnect, '
         'nested session() blocks for the same client, a session() block '
         'still open while its client leaves and another takes its place on '
-        'the same transport and namespace, transport loss and '
+        'the same transport and namespace, a reconnection to the namespace '
+        'in the gap right after the server has released the old client, '
+        'transport loss and '
         'reconnects on the same transport (same or other '
         'namespace) or a new one, and connection requests to a namespace '
         'whose handler refuses (False / ConnectionRefusedError, optionally '
@@ -82,6 +84,12 @@ def strategy(tier):
         # place on the same transport and saves a session of its own
         st.fixed_dictionaries({'op': st.just('straddle'), 'c': ci,
                                'muts': mut, 'v': val,
+                               'how': st.sampled_from(['cdisc', 'sdisc'])}),
+        # the client leaves the namespace, and right after the server has
+        # released it (another thread / task gets its turn there) the same
+        # transport connects to the namespace again and saves a session
+        st.fixed_dictionaries({'op': st.just('gap_reconnect'), 'c': ci,
+                               'v': val,
                                'how': st.sampled_from(['cdisc', 'sdisc'])}),
         # the transport asks for a namespace whose connect handler refuses
         st.fixed_dictionaries({'op': st.just('refused'),
@@ -272,6 +280,60 @@ def _run(case, w):
             mutate(model[ci])
             touched.add(ci)
             read(ci, 'get')
+        elif k == 'gap_reconnect':
+            eio_sid = w.t[c['t']]
+            real = sio.manager.disconnect
+            got = {}
+
+            def after_release():
+                sid2 = sio.manager.sid_from_eio_sid(eio_sid, c['ns'])
+                if sid2 is not None and sid2 != c['sid']:
+                    got['sid'] = sid2
+            if aio:
+                async def wrapped(sid_, namespace=None, **kw):
+                    r = await real(sid_, namespace=namespace, **kw)
+                    if sid_ == c['sid'] and 'done' not in got:
+                        got['done'] = True
+                        await sio._handle_connect(eio_sid, c['ns'], None)
+                        after_release()
+                        if 'sid' in got:
+                            await sio.save_session(
+                                got['sid'], copy.deepcopy(op['v']),
+                                namespace=c['ns'])
+                    return r
+            else:
+                def wrapped(sid_, namespace=None, **kw):
+                    r = real(sid_, namespace=namespace, **kw)
+                    if sid_ == c['sid'] and 'done' not in got:
+                        got['done'] = True
+                        sio._handle_connect(eio_sid, c['ns'], None)
+                        after_release()
+                        if 'sid' in got:
+                            sio.save_session(got['sid'],
+                                             copy.deepcopy(op['v']),
+                                             namespace=c['ns'])
+                    return r
+            sio.manager.disconnect = wrapped
+            try:
+                if op['how'] == 'cdisc':
+                    w.send(c['t'], wire.DISCONNECT, c['ns'])
+                else:
+                    w.do(sio.disconnect(c['sid'], namespace=c['ns']))
+            finally:
+                sio.manager.disconnect = real
+            w.mark_dead(ci)
+            ended(ci)
+            w.recv_all()
+            if 'sid' in got:
+                w.clients.append({'t': c['t'], 'ns': c['ns'],
+                                  'sid': got['sid'], 'alive': True})
+                w.all_sids.append(got['sid'])
+                cj = len(w.clients) - 1
+                model[cj] = copy.deepcopy(op['v'])
+                touched.add(cj)
+                labels['reconnect_in_the_gap_after_release'] = True
+                labels['nontrivial'] = True
+                read(cj, 'get')
         elif k == 'straddle':
             def mutate(s):
                 for m in op['muts']:
